@@ -58,11 +58,13 @@ SOURCES = {
     'NEXT': [('next', [None], None)],
     'RETURN': [('return',)],
     'READ': [('read', ['Z'])],
+    # the item is read from the DATA line but the assignment fails in the READ statement: ERL is the line of the READ
+    'READOVF': [('read', ['K%'])],
     'GOTO': [('goto', 7777)],
     'RESUME': [('resume', None)],
     'RESUMENEXT': [('resume', 'next')],
 }
-SOURCE_ORDER = ['ERROR5', 'ERROR255', 'ERROR73', 'DIV0', 'OVERFLOW', 'TYPE', 'NEXT', 'RETURN', 'READ',
+SOURCE_ORDER = ['ERROR5', 'ERROR255', 'ERROR73', 'DIV0', 'OVERFLOW', 'TYPE', 'NEXT', 'RETURN', 'READ', 'READOVF',
                 'GOTO', 'RESUME', 'RESUMENEXT']
 
 POSITIONS = ['alone', 'first', 'middle', 'last', 'then', 'else']
@@ -177,6 +179,9 @@ def build(source, pos, ctx, h, trap, second=None):
         raise CheckError(ctx)
     lines.append((800, [P('r')]))
     lines.append((900, [('end',)]))
+    if 'READOVF' in (source, second):
+        # (identical items, more than any handler re-reads: whether the failed READ consumed its item is not observable)
+        lines.append((950, [('data', ' ' + ','.join(['40000'] * 24))]))
     if ctx == 'gosub1':
         for i, s_ in enumerate(sites):
             lines.append((300 + 10 * i, s_))
